@@ -417,10 +417,11 @@ impl RaftStorage<ClientRequest, ClientResponse> for FileStore {
             .send(StateApplyRequest::ApplySnapshot { snapshot })
             .await??;
         //清除废弃日志
+        // delete_through == None: the whole local log is older than the snapshot and has to go
         let split_off_index = if let Some(v) = delete_through {
             v + 1
         } else {
-            0
+            u64::MAX
         };
         self.log_manager
             .send(RaftLogManagerRequest::SplitOff(split_off_index))
